@@ -13,6 +13,11 @@ static void check_query(vf_case *c, const vf_api *P, fact_run *R, int ilu, const
     double held = (4.0 * n + 3.0) * iw + (double)Ls->nzval_colptr[n] * dw + (double)Ls->rowind_colptr[n] * iw + (n + 1.0) * iw + (double)Us->colptr[n] * (dw + iw);
     if (!(fabs(mu.for_lu - held) <= 1e-5 * held + 1)) vf_viol(c, "for_lu-mismatch", "%s: QuerySpace for_lu=%g but the returned factors hold %g bytes by the documented accounting", what, (double)mu.for_lu, held);
     if (!(mu.total_needed >= mu.for_lu)) vf_viol(c, "total_needed<for_lu", "%s: total_needed=%g < for_lu=%g", what, (double)mu.total_needed, (double)mu.for_lu);
+    /* "number of memory expansions during the factorization" (stat->expansions, copied to mem_usage->expansions by the drivers) against the
+       growths in flight the monitor saw during this call: ?expand calls inside the caller's workspace (guarded hook) or allocations made by
+       ?expand under library allocation (ledger), the four initial requests excluded */
+    if (R->growths >= 0) { c->counters[6]++; if ((long)R->stat.expansions != R->growths)
+        vf_viol(c, "expansions-misreported", "%s: the factorization reports %d memory expansions, the monitor observed %ld growths in flight during this call", what, R->stat.expansions, R->growths); }
 }
 
 static void c07_run(vf_case *c)
@@ -148,7 +153,16 @@ static void c07_run(vf_case *c)
             if (R.info > n) { vf_viol(c, "capacity-start-misreported", "initial capacities lusup=%ld ucol=%ld lsub=%ld (%s): info=%lld although memory is plentiful", cap[0], cap[1], cap[2], ws ? "generous workspace" : "library allocation", (long long)R.info); fact_free(&R); vf_check_ledger_since(c, "after capacity run", "nomem", mark); continue; }
             if (R.info != info0) vf_viol(c, "info-depends-on-capacity", "initial capacities lusup=%ld ucol=%ld lsub=%ld (%s): info=%lld, reference info=%lld", cap[0], cap[1], cap[2], ws ? "workspace" : "library allocation", (long long)R.info, (long long)info0);
             else if (run_hash(P, &R) != h0) vf_viol(c, "factors-depend-on-capacity", "initial capacities lusup=%ld ucol=%ld lsub=%ld (%s, %d expansions): perms/L/U bytes differ from the reference run", cap[0], cap[1], cap[2], ws ? "workspace" : "library allocation", R.stat.expansions);
-            else { compared++; ncap++; if (R.stat.expansions > maxexp) maxexp = R.stat.expansions; }
+            else { compared++; ncap++; if (R.stat.expansions > maxexp) maxexp = R.stat.expansions; check_query(c, P, &R, ilu, "capacity start");
+                /* a refactorization in the same storage (row pivots and arrays reused, values perturbed in the last bits): what it reports
+                   must describe this call - its own growths, the factors it returned - not the earlier one */
+                if (!ilu && t % 3 == 0 && R.info == 0 && n >= 2 && c->nmore < 3) {
+                    vf_mat A2; mat_revalue(r, P, &A, rng_bool(r, 0.7) ? 0 : 2, R.perm_r, R.perm_c, &A2);
+                    fact_redo(P, &A2, SamePattern_SameRowPerm, ws ? work : NULL, ws ? (int_t)G : 0, &R);
+                    if (R.info == 0 && R.have_LU) { check_query(c, P, &R, 0, "refactorization (SamePattern_SameRowPerm) after a capacity start"); vf_tag(c, "refactor-report"); c->counters[7]++; }
+                    else if (R.info > n) vf_viol(c, "capacity-start-misreported", "refactorization after initial capacities lusup=%ld ucol=%ld lsub=%ld (%s): info=%lld although memory is plentiful", cap[0], cap[1], cap[2], ws ? "generous workspace" : "library allocation", (long long)R.info);
+                    mat_free(&A2);
+                } }
             fact_free(&R);
         }
         free(wb); c->counters[5] += ncap; if (ncap) vf_tag(c, "capacity-walk");
